@@ -237,68 +237,12 @@ func c03(c *core.Ctx) {
 					if !isF || fld != "last" || core.NamedOf(base.Type()) != tn {
 						return
 					}
-					// the frame parked: an Alloc holding a received frame; find kind() calls on loads of it
-					fr, isAl := st.Val.(*ssa.Alloc)
-					if !isAl || core.NamedOf(fr.Type()) != "frame" {
+					possible, isRecv := parkedKinds(kinds, st)
+					if !isRecv {
 						return
-					}
-					if len(core.StoresTo(fr)) == 0 {
-						return // a literal built in place (only field stores): it has exactly the kind of its one field
-					}
-					if len(core.StoresTo(fr)) > 0 {
-						// a literal built here (e.g. the synthetic error frame) has exactly the kind of its one field
-						lit := true
-						for _, s2 := range core.StoresTo(fr) {
-							if _, isEx := s2.Val.(*ssa.Extract); isEx {
-								lit = false
-							}
-							if _, isU := s2.Val.(*ssa.UnOp); isU {
-								lit = false
-							}
-						}
-						if lit {
-							return
-						}
 					}
 					n++
 					key := core.FuncName(fn) + ":parked-kinds-handled"
-					possible := map[string]int64{}
-					for name, k := range kinds {
-						possible[name] = k
-					}
-					isKindOfFrame := func(v ssa.Value) bool {
-						kc, ok := v.(*ssa.Call)
-						if !ok || core.InfoOf(&kc.Call).Name != "kind" {
-							return false
-						}
-						return core.OriginIs(kc.Call.Args[0], func(o ssa.Value) bool {
-							u, ok := o.(*ssa.UnOp)
-							return ok && u.X == ssa.Value(fr)
-						}) || core.OriginIs(kc.Call.Args[0], func(o ssa.Value) bool {
-							// value stored into fr
-							for _, s2 := range core.StoresTo(fr) {
-								if s2.Val == o {
-									return true
-								}
-							}
-							return false
-						})
-					}
-					for _, ef := range core.DominatingFacts(st) {
-						fc := ef.Fact
-						k, isC := core.ConstInt(fc.Y)
-						if !isC || !isKindOfFrame(fc.X) {
-							continue
-						}
-						for name, kk := range possible {
-							if fc.Op == token.NEQ && kk == k {
-								delete(possible, name)
-							}
-							if fc.Op == token.EQL && kk != k {
-								delete(possible, name)
-							}
-						}
-					}
 					var lost []string
 					for name, kk := range possible {
 						if !handled[kk] {
@@ -449,7 +393,7 @@ func c03Typestate(c *core.Ctx, nt *types.Named) {
 	// failing edge returns a non-nil error
 	okFail := false
 	for _, f := range fam {
-		for _, r := range core.Returns(f) {
+		for _, r := range core.ErrReturns(f) {
 			sentEdge := core.GuardedBy(r, func(fc core.Fact) bool {
 				_, fld, ok := core.FieldOf(fc.X)
 				if !ok || fld != flagField {
@@ -612,7 +556,7 @@ func marksWithConstArg(p *core.Prog, nt *types.Named, sh *ssa.Function, isMark f
 			}
 			par := h.Params[i]
 			ok := true
-			for _, r := range core.Returns(h) {
+			for _, r := range core.ErrReturns(h) {
 				if core.ClassifyErr(r.Results[len(r.Results)-1], r) == core.ErrNonNil {
 					continue
 				}
@@ -1414,4 +1358,67 @@ func traceVerbatim(root ssa.Value, allow func(*ssa.Call) (ssa.Value, bool)) (bad
 	}
 	trace(root)
 	return
+}
+
+// parkedKinds: for a store of a frame into a stream's peek slot, the frame
+// kinds the parked frame can have at that point (from the dominating tests of
+// its kind()); isRecv is false if the frame is a literal built in place rather
+// than one received from the channel.
+func parkedKinds(kinds map[string]int64, st *ssa.Store) (map[string]int64, bool) {
+	fr, isAl := st.Val.(*ssa.Alloc)
+	if !isAl || core.NamedOf(fr.Type()) != "frame" {
+		return nil, false
+	}
+	if len(core.StoresTo(fr)) == 0 {
+		return nil, false // a literal built in place (only field stores): it has exactly the kind of its one field
+	}
+	lit := true
+	for _, s2 := range core.StoresTo(fr) {
+		if _, isEx := s2.Val.(*ssa.Extract); isEx {
+			lit = false
+		}
+		if _, isU := s2.Val.(*ssa.UnOp); isU {
+			lit = false
+		}
+	}
+	if lit {
+		return nil, false
+	}
+	possible := map[string]int64{}
+	for name, k := range kinds {
+		possible[name] = k
+	}
+	isKindOfFrame := func(v ssa.Value) bool {
+		kc, ok := v.(*ssa.Call)
+		if !ok || core.InfoOf(&kc.Call).Name != "kind" {
+			return false
+		}
+		return core.OriginIs(kc.Call.Args[0], func(o ssa.Value) bool {
+			u, ok := o.(*ssa.UnOp)
+			return ok && u.X == ssa.Value(fr)
+		}) || core.OriginIs(kc.Call.Args[0], func(o ssa.Value) bool {
+			for _, s2 := range core.StoresTo(fr) {
+				if s2.Val == o {
+					return true
+				}
+			}
+			return false
+		})
+	}
+	for _, ef := range core.DominatingFacts(st) {
+		fc := ef.Fact
+		k, isC := core.ConstInt(fc.Y)
+		if !isC || !isKindOfFrame(fc.X) {
+			continue
+		}
+		for name, kk := range possible {
+			if fc.Op == token.NEQ && kk == k {
+				delete(possible, name)
+			}
+			if fc.Op == token.EQL && kk != k {
+				delete(possible, name)
+			}
+		}
+	}
+	return possible, true
 }
